@@ -1521,14 +1521,18 @@ def client_checks(ck_rng, thorough):
                     got = f'returned R.0.{payload[1]}'
                 elif msg == M.CANCEL:
                     got = 'returned K.0'
-                else:
+                elif msg == M.STATUS:
                     got = f'returned S.0.{payload.name.lower()}'
+                else:
+                    got = f'returned ?{msg!r}'
             except RuntimeError as e:
                 t = str(e)
                 got = f'raised {t.split("-")[1]}' if t.startswith('boom-') \
                     else f'raised ?{t}'
             except EOFError:
                 got = 'blocked'
+            except Exception as e:      # anything else is the client's bug
+                got = f'crashed {type(e).__name__}'
             line = 'recv ' + ' '.join(
                 tok if x is None else f'{tok} {x}' for tok, x in seq)
             lines.append(line)
@@ -1580,6 +1584,8 @@ def client_checks(ck_rng, thorough):
             return ('returned', r, list(cap.got), comp, c)
         except RuntimeError as e:
             return ('raised', e, list(cap.got), comp, c)
+        except Exception as e:
+            return ('crashed', e, list(cap.got), comp, c)
 
     reply_for = {'status': (M.STATUS, CS.DONE), 'result': (M.RESULT, ('R', 9)),
                  'cancel': (M.CANCEL, None)}
@@ -1763,10 +1769,23 @@ def run(ck: Check):
     thorough = ck.tier == 'thorough'
     if ck.replay_path:
         body = json.loads(open(ck.replay_path).read())
-        hist = body.get('replay', body).get('history')
+        rp = body.get('replay', body)
+        hist = rp.get('history')
         if hist:
             for f in replay_history(hist):
                 ck.violation(f.sig, f.what, f.replay, f.found)
+        elif 'method' in rp or 'sequence' in rp:
+            _quiet()
+            for f in client_checks(ck.rng, False)[2]:
+                print(f'  -> {f.sig}: {f.what}')
+                ck.violation(f.sig, f.what, f.replay, f.found)
+        elif 'case' in rp and 'seed' in rp['case']:
+            _quiet()
+            c = rp['case']
+            o = bubbling_case(c['seed'], c['nmanagers'], c['depth'], c['how'],
+                              c['exc'], rp.get('observed', {}).get(
+                                  'ok_result') is not None)
+            print(o)
         return
     import time as _time
     phases = {}
@@ -1788,10 +1807,9 @@ def run(ck: Check):
             all_findings.extend(fs)
 
     evs = alphabet(2, 2, 2)
-    depth = 6 if thorough else 4
+    depth = 5 if thorough else 4
     if thorough:
-        jobs = [([a, b, c], depth, False, True)
-                for a in FIRST for b in evs for c in evs]
+        jobs = [([a, b], depth, False, True) for a in FIRST for b in evs]
     else:
         jobs = [([a], depth, False, True) for a in FIRST]
     ck.rng.shuffle(jobs)
